@@ -204,4 +204,996 @@ Section NfaProofs.
     destruct build_total_aux as [_ Hseq]. destruct (Hseq e) as [_ Hsub].
     destruct (Hsub [] Hn Hw) as (h & [s a] & E). rewrite expression_to_nfa_sub, E. eauto.
   Qed.
+
+  (* ---------- heap access ---------- *)
+  Lemma get_app_empty (h : heap) i : get (h ++ [enode]) i = get h i.
+  Proof.
+    unfold get. destruct (Nat.lt_ge_cases i (length h)) as [Hlt|Hge].
+    - apply app_nth1; exact Hlt.
+    - rewrite (nth_overflow h _ Hge). rewrite app_nth2 by exact Hge.
+      destruct (i - length h) as [|[|k]]; reflexivity.
+  Qed.
+
+  Lemma get_oob (h : heap) i : length h <= i -> get h i = enode.
+  Proof. intros H. unfold get. apply nth_overflow; exact H. Qed.
+
+  Lemma get_app_l (h l : heap) i : i < length h -> get (h ++ l) i = get h i.
+  Proof. intros H. unfold get. apply app_nth1; exact H. Qed.
+
+  Lemma get_app_r (h l : heap) i : length h <= i -> get (h ++ l) i = nth (i - length h) l enode.
+  Proof. intros H. unfold get. apply app_nth2. lia. Qed.
+
+  Lemma upd_length {A} : forall (l : list A) a x, length (upd a x l) = length l.
+  Proof.
+    induction l as [|y l IH]; intros [|a] x; cbn [upd length]; try reflexivity.
+    rewrite IH; reflexivity.
+  Qed.
+
+  Lemma nth_upd_same {A} : forall (l : list A) a x d, a < length l -> nth a (upd a x l) d = x.
+  Proof.
+    induction l as [|y l IH]; intros [|a] x d Hlt; cbn [length] in Hlt; try lia; cbn [upd nth].
+    - reflexivity.
+    - apply IH. lia.
+  Qed.
+
+  Lemma nth_upd_other {A} : forall (l : list A) a i x d, i <> a -> nth i (upd a x l) d = nth i l d.
+  Proof.
+    induction l as [|y l IH]; intros [|a] [|i] x d Hne; cbn [upd nth]; try reflexivity; try lia.
+    apply IH. lia.
+  Qed.
+
+  Lemma length_set_node (h : heap) a n : length (set_node h a n) = length h.
+  Proof. unfold set_node. apply upd_length. Qed.
+  Lemma get_set_node_same (h : heap) a n : a < length h -> get (set_node h a n) a = n.
+  Proof. intros H. unfold get, set_node. apply nth_upd_same; exact H. Qed.
+  Lemma get_set_node_other (h : heap) a i n : i <> a -> get (set_node h a n) i = get h i.
+  Proof. intros H. unfold get, set_node. apply nth_upd_other; exact H. Qed.
+
+  Lemma length_set_eps (h : heap) a l : length (set_eps h a l) = length h.
+  Proof. unfold set_eps. apply length_set_node. Qed.
+  Lemma get_set_eps_same (h : heap) a l :
+    a < length h -> get (set_eps h a l) a = mkNode (ntrans (get h a)) l.
+  Proof. intros H. unfold set_eps. apply get_set_node_same; exact H. Qed.
+  Lemma get_set_eps_other (h : heap) a i l : i <> a -> get (set_eps h a l) i = get h i.
+  Proof. intros H. unfold set_eps. apply get_set_node_other; exact H. Qed.
+
+  (* ---------- edges, steps, paths ---------- *)
+  Definition edge (h : heap) (u t : nat) : Prop :=
+    In t (neps (get h u)) \/ exists p, In (p, t) (ntrans (get h u)).
+  Definition closed (h : heap) (lo hi : nat) : Prop :=
+    forall u t, lo <= u < hi -> edge h u t -> lo <= t < hi.
+
+  Definition olist (l : option I) : list I := match l with None => [] | Some x => [x] end.
+  Definition estep (h : heap) (u : nat) (l : option I) (t : nat) : Prop :=
+    match l with
+    | None => In t (neps (get h u))
+    | Some x => exists p, In (p, t) (ntrans (get h u)) /\ accepts p x = true
+    end.
+
+  Lemma estep_edge (h : heap) u l t : estep h u l t -> edge h u t.
+  Proof.
+    destruct l as [x|]; cbn [estep].
+    - intros (p & Hin & _). right; exists p; exact Hin.
+    - intros Hin; left; exact Hin.
+  Qed.
+
+  Lemma estep_eq (h h' : heap) u l t : get h' u = get h u -> estep h u l t -> estep h' u l t.
+  Proof. intros E. unfold estep. rewrite E. tauto. Qed.
+
+  Lemma edge_eq (h h' : heap) u t : get h' u = get h u -> edge h u t -> edge h' u t.
+  Proof. intros E. unfold edge. rewrite E. tauto. Qed.
+
+  Lemma edge_empty (h : heap) u t : get h u = enode -> edge h u t -> False.
+  Proof. intros E [H|(p & H)]; rewrite E in H; exact H. Qed.
+
+  Lemma edge_eps_only (h : heap) u t l : get h u = mkNode [] l -> edge h u t -> In t l.
+  Proof. intros E [H|(p & H)]; rewrite E in H; cbn in H; [exact H | contradiction]. Qed.
+
+  Lemma estep_empty (h : heap) u l t : get h u = enode -> estep h u l t -> False.
+  Proof. intros E H. eapply edge_empty; [exact E | eapply estep_edge; exact H]. Qed.
+
+  Lemma estep_eps_only (h : heap) u l t es :
+    get h u = mkNode [] es -> estep h u l t -> l = None /\ In t es.
+  Proof.
+    intros E H. destruct l as [x|]; cbn [estep] in H; rewrite E in H; cbn in H.
+    - destruct H as (p & [] & _).
+    - split; [reflexivity | exact H].
+  Qed.
+
+  Inductive pathn (h : heap) : nat -> nat -> list I -> nat -> Prop :=
+  | pn_nil s : pathn h 0 s [] s
+  | pn_cons n s l m w t : estep h s l m -> pathn h n m w t -> pathn h (S n) s (olist l ++ w) t.
+
+  Definition path (h : heap) (s : nat) (w : list I) (t : nat) : Prop := exists n, pathn h n s w t.
+
+  Lemma pathn_inv (h : heap) n s w t : pathn h n s w t ->
+    (n = 0 /\ w = [] /\ s = t) \/
+    (exists n' l m w', n = S n' /\ w = olist l ++ w' /\ estep h s l m /\ pathn h n' m w' t).
+  Proof.
+    intros H; destruct H as [s | n s l m w t Hst Hp].
+    - left; auto.
+    - right; exists n, l, m, w; auto.
+  Qed.
+
+  Lemma pathn_app (h : heap) n1 s w1 m : pathn h n1 s w1 m ->
+    forall n2 w2 t, pathn h n2 m w2 t -> pathn h (n1 + n2) s (w1 ++ w2) t.
+  Proof.
+    intros H; induction H as [s | n s l m w t Hst Hp IH]; intros n2 w2 t' H2.
+    - exact H2.
+    - cbn [Nat.add]. rewrite <- app_assoc. eapply pn_cons; [exact Hst | apply IH; exact H2].
+  Qed.
+
+  Lemma path_nil (h : heap) s : path h s [] s.
+  Proof. exists 0; apply pn_nil. Qed.
+
+  Lemma path_app (h : heap) s w1 m w2 t : path h s w1 m -> path h m w2 t -> path h s (w1 ++ w2) t.
+  Proof. intros [n1 H1] [n2 H2]. exists (n1 + n2). eapply pathn_app; eassumption. Qed.
+
+  Lemma path_eps (h : heap) s m w t : In m (neps (get h s)) -> path h m w t -> path h s w t.
+  Proof.
+    intros He [n Hp]. exists (S n). change w with (olist None ++ w).
+    eapply pn_cons; [exact He | exact Hp].
+  Qed.
+
+  Lemma path_sym (h : heap) s p x m w t :
+    In (p, m) (ntrans (get h s)) -> accepts p x = true -> path h m w t -> path h s (x :: w) t.
+  Proof.
+    intros Hin Hacc [n Hp]. exists (S n). change (x :: w) with (olist (Some x) ++ w).
+    eapply pn_cons; [|exact Hp]. exists p; split; assumption.
+  Qed.
+
+  Lemma pathn_from_empty (h : heap) a n w t : get h a = enode -> pathn h n a w t ->
+    n = 0 /\ w = [] /\ t = a.
+  Proof.
+    intros E Hp. destruct (pathn_inv _ _ _ _ _ Hp) as [(-> & -> & <-)|(n' & l & m & w' & _ & _ & Hst & _)].
+    - auto.
+    - exfalso. eapply estep_empty; eassumption.
+  Qed.
+
+  (* a path inside a closed fragment survives changes outside the fragment and
+     at its (edge-free) accepting node *)
+  Lemma pathn_lift (h h' : heap) lo hi a :
+    closed h lo hi -> get h a = enode ->
+    (forall i, lo <= i < hi -> i <> a -> get h' i = get h i) ->
+    forall n u w t, pathn h n u w t -> lo <= u < hi -> pathn h' n u w t.
+  Proof.
+    intros Hcl Hacc Hag n u w t Hp.
+    induction Hp as [s | n s l m w t Hst Hp IH]; intros Hr.
+    - apply pn_nil.
+    - assert (Hne : s <> a).
+      { intros ->. eapply estep_empty; eassumption. }
+      eapply pn_cons.
+      + eapply estep_eq; [apply Hag; assumption | exact Hst].
+      + apply IH. eapply Hcl; [exact Hr | eapply estep_edge; exact Hst].
+  Qed.
+
+  (* a path in a modified heap that leaves the fragment (or stops at its accepting
+     node) decomposes at the first visit of the accepting node *)
+  Lemma pathn_split (h h' : heap) lo hi a :
+    closed h lo hi ->
+    (forall i, lo <= i < hi -> i <> a -> get h' i = get h i) ->
+    forall n u w t, pathn h' n u w t -> lo <= u < hi -> u <> a ->
+      (~ (lo <= t < hi) \/ t = a) ->
+      exists n1 n2 w1 w2, n = n1 + n2 /\ 1 <= n1 /\ w = w1 ++ w2 /\
+                          pathn h n1 u w1 a /\ pathn h' n2 a w2 t.
+  Proof.
+    intros Hcl Hag n u w t Hp.
+    induction Hp as [s | n s l m w t Hst Hp IH]; intros Hr Hne Ht.
+    - exfalso. destruct Ht as [Ht|Ht]; [apply Ht; exact Hr | apply Hne; exact Ht].
+    - assert (Hst' : estep h s l m).
+      { eapply estep_eq; [symmetry; apply Hag; assumption | exact Hst]. }
+      assert (Hr0 : lo <= m < hi).
+      { eapply Hcl; [exact Hr | eapply estep_edge; exact Hst']. }
+      destruct (Nat.eq_dec m a) as [->|Hne0].
+      + exists 1, n, (olist l), w. split; [reflexivity|]. split; [lia|]. split; [reflexivity|].
+        split; [|exact Hp]. rewrite <- (app_nil_r (olist l)).
+        eapply pn_cons; [exact Hst' | apply pn_nil].
+      + destruct (IH Hr0 Hne0 Ht) as (n1 & n2 & w1 & w2 & -> & Hn1 & -> & Hp1 & Hp2).
+        exists (S n1), n2, (olist l ++ w1), w2. split; [reflexivity|]. split; [lia|].
+        split; [apply app_assoc|]. split; [eapply pn_cons; eassumption | exact Hp2].
+  Qed.
+
+  (* a path that starts in a closed, unmodified region stays there *)
+  Lemma pathn_stay (h h' : heap) lo hi :
+    closed h lo hi ->
+    (forall i, lo <= i < hi -> get h' i = get h i) ->
+    forall n u w t, pathn h' n u w t -> lo <= u < hi -> pathn h n u w t /\ lo <= t < hi.
+  Proof.
+    intros Hcl Hag n u w t Hp.
+    induction Hp as [s | n s l m w t Hst Hp IH]; intros Hr.
+    - split; [apply pn_nil | exact Hr].
+    - assert (Hst' : estep h s l m).
+      { eapply estep_eq; [symmetry; apply Hag; assumption | exact Hst]. }
+      assert (Hr0 : lo <= m < hi).
+      { eapply Hcl; [exact Hr | eapply estep_edge; exact Hst']. }
+      destruct (IH Hr0) as [Hp' Ht]. split; [|exact Ht].
+      eapply pn_cons; eassumption.
+  Qed.
+
+  (* ---------- languages ---------- *)
+  Definition cat (L1 L2 : list I -> Prop) (w : list I) : Prop :=
+    exists w1 w2, w = w1 ++ w2 /\ L1 w1 /\ L2 w2.
+
+  Inductive iter (L : list I -> Prop) : list I -> Prop :=
+  | iter_one w : L w -> iter L w
+  | iter_cons w1 w2 : L w1 -> iter L w2 -> iter L (w1 ++ w2).
+
+  Definition wrapL (skip loop : bool) (L : list I -> Prop) (w : list I) : Prop :=
+    (skip = true /\ w = []) \/ (if loop then iter L w else L w).
+
+  Notation lang_op := (lang_op accepts).
+  Notation lang_seq := (lang_seq accepts).
+
+  Lemma lang_atom p w : lang_op (Atom p) w <-> exists x, w = [x] /\ accepts p x = true.
+  Proof.
+    split.
+    - intros H; inversion H; subst. eauto.
+    - intros (x & -> & Hx). constructor; exact Hx.
+  Qed.
+
+  Lemma lang_union l r w : lang_op (Union l r) w <-> lang_seq l w \/ lang_seq r w.
+  Proof.
+    split.
+    - intros H; inversion H; subst; auto.
+    - intros [H|H]; [apply L_union_l | apply L_union_r]; exact H.
+  Qed.
+
+  Lemma lang_opt e w : lang_op (Opt e) w <-> wrapL true false (lang_seq e) w.
+  Proof.
+    unfold wrapL. split.
+    - intros H; inversion H; subst; auto.
+    - intros [[_ ->]|H]; [apply L_opt_none | apply L_opt_some; exact H].
+  Qed.
+
+  Lemma lang_star e w : lang_op (Star e) w <-> wrapL true true (lang_seq e) w.
+  Proof.
+    unfold wrapL. split.
+    - intros H. remember (Star e) as o eqn:Eo.
+      induction H as [p x Hx | l r w Hl | l r w Hr | e0 | e0 w Hs | e0
+                     | e0 w1 w2 Hs Hst IH | e0 w Hs | e0 w1 w2 Hs Hpl IH]; try discriminate.
+      + left; auto.
+      + inversion Eo; subst e0. right. destruct (IH eq_refl) as [[_ ->]|Hi].
+        * rewrite app_nil_r. apply iter_one; exact Hs.
+        * apply iter_cons; assumption.
+    - intros [[_ ->]|H]; [apply L_star_nil|].
+      induction H as [w Hw | w1 w2 Hw Hi IH].
+      + rewrite <- (app_nil_r w). apply L_star_cons; [exact Hw | apply L_star_nil].
+      + apply L_star_cons; assumption.
+  Qed.
+
+  Lemma lang_plus e w : lang_op (Plus e) w <-> wrapL false true (lang_seq e) w.
+  Proof.
+    unfold wrapL. split.
+    - intros H. remember (Plus e) as o eqn:Eo.
+      induction H as [p x Hx | l r w Hl | l r w Hr | e0 | e0 w Hs | e0
+                     | e0 w1 w2 Hs Hst IH | e0 w Hs | e0 w1 w2 Hs Hpl IH]; try discriminate.
+      + inversion Eo; subst e0. right. apply iter_one; exact Hs.
+      + inversion Eo; subst e0. right. destruct (IH eq_refl) as [[Hf _]|Hi]; [discriminate|].
+        apply iter_cons; assumption.
+    - intros [[Hf _]|H]; [discriminate|].
+      induction H as [w Hw | w1 w2 Hw Hi IH].
+      + apply L_plus_one; exact Hw.
+      + apply L_plus_cons; assumption.
+  Qed.
+
+  Lemma lang_seq_nil w : lang_seq [] w <-> w = [].
+  Proof.
+    split.
+    - intros H; inversion H; reflexivity.
+    - intros ->; constructor.
+  Qed.
+
+  Lemma lang_seq_cons o e w : lang_seq (o :: e) w <-> cat (lang_op o) (lang_seq e) w.
+  Proof.
+    split.
+    - intros H; inversion H; subst. exists w1, w2; auto.
+    - intros (w1 & w2 & -> & H1 & H2). constructor; assumption.
+  Qed.
+
+  (* ---------- the fragment invariant ---------- *)
+  Record Frag (h : heap) (lo s a : nat) (L : list I -> Prop) : Prop := mkFrag {
+    fr_s : lo <= s < length h;
+    fr_a : lo <= a < length h;
+    fr_ne : s <> a;
+    fr_acc : get h a = enode;
+    fr_closed : closed h lo (length h);
+    fr_lang : forall w, path h s w a <-> L w }.
+
+  Lemma Frag_ext (h : heap) lo s a (L L' : list I -> Prop) :
+    (forall w, L w <-> L' w) -> Frag h lo s a L -> Frag h lo s a L'.
+  Proof.
+    intros HL [Hs Ha Hne Hacc Hcl Hlang]. constructor; try assumption.
+    intros w. rewrite Hlang. apply HL.
+  Qed.
+
+  (* ---------- Atom ---------- *)
+  Lemma atom_frag (h : heap) p :
+    forall h', h' = h ++ [mkNode [(p, S (length h))] []; enode] ->
+    (forall i, i < length h -> get h' i = get h i) /\
+    Frag h' (length h) (length h) (S (length h)) (lang_op (Atom p)).
+  Proof.
+    intros h' Eh'. remember (length h) as s eqn:Es.
+    assert (Hlen : length h' = S (S s)).
+    { subst h'. rewrite app_length. cbn [length]. lia. }
+    assert (Gs : get h' s = mkNode [(p, S s)] []).
+    { subst h'. rewrite get_app_r by lia. rewrite Es, Nat.sub_diag. reflexivity. }
+    assert (Ga : get h' (S s) = enode).
+    { subst h'. rewrite get_app_r by lia. replace (S s - length h) with 1 by lia. reflexivity. }
+    split.
+    - intros i Hi. subst h'. apply get_app_l. lia.
+    - constructor.
+      + rewrite Hlen; lia.
+      + rewrite Hlen; lia.
+      + lia.
+      + exact Ga.
+      + intros u t Hu He. rewrite Hlen in Hu. rewrite Hlen.
+        assert (Hcase : u = s \/ u = S s) by lia. destruct Hcase as [->| ->].
+        * destruct He as [He|(q & He)]; rewrite Gs in He; cbn in He; [contradiction|].
+          destruct He as [He|[]]. inversion He; subst. lia.
+        * exfalso. eapply edge_empty; eassumption.
+      + intros w. rewrite lang_atom. split.
+        * intros [n Hp].
+          destruct (pathn_inv _ _ _ _ _ Hp) as [(_ & _ & Hx)|(n' & l & m & w' & -> & -> & Hst & Hp')];
+            [lia|].
+          destruct l as [x|]; cbn [estep] in Hst; rewrite Gs in Hst; cbn in Hst; [|contradiction].
+          destruct Hst as (q & [Hq|[]] & Hacc). inversion Hq; subst q m.
+          destruct (pathn_from_empty _ _ _ _ _ Ga Hp') as (_ & -> & _).
+          exists x. split; [reflexivity | exact Hacc].
+        * intros (x & -> & Hx). eapply (path_sym _ _ p x (S s) []).
+          -- rewrite Gs; left; reflexivity.
+          -- exact Hx.
+          -- apply path_nil.
+  Qed.
+
+  (* ---------- leaving a fragment through its accepting node ---------- *)
+  Lemma frag_exit (hX hf : heap) lo sX aX a LX :
+    Frag hX lo sX aX LX ->
+    (forall i, lo <= i < length hX -> i <> aX -> get hf i = get hX i) ->
+    get hf aX = mkNode [] [a] -> get hf a = enode -> ~ (lo <= a < length hX) ->
+    forall w, path hf sX w a <-> LX w.
+  Proof.
+    intros [Hs Ha Hne Hacc Hcl Hlang] Hag GaX Ga Hout w. rewrite <- Hlang. split.
+    - intros [n Hp].
+      destruct (pathn_split hX hf lo (length hX) aX Hcl Hag n sX w a Hp Hs Hne (or_introl Hout))
+        as (n1 & n2 & w1 & w2 & -> & _ & -> & Hp1 & Hp2).
+      destruct (pathn_inv _ _ _ _ _ Hp2) as [(_ & _ & Hx)|(n' & l & m & w' & -> & -> & Hst & Hp')].
+      + exfalso. subst a. apply Hout. exact Ha.
+      + destruct (estep_eps_only _ _ _ _ _ GaX Hst) as [-> Hm]. destruct Hm as [<-|[]].
+        destruct (pathn_from_empty _ _ _ _ _ Ga Hp') as (_ & -> & _).
+        cbn [olist app]. rewrite app_nil_r. exists n1; exact Hp1.
+    - intros [n Hp]. rewrite <- (app_nil_r w). eapply path_app.
+      + exists n. eapply (pathn_lift hX hf lo (length hX) aX); eassumption.
+      + eapply path_eps; [rewrite GaX; left; reflexivity | apply path_nil].
+  Qed.
+
+  (* ---------- Union ---------- *)
+  Lemma union_frag (h1 h2 : heap) s s1 a1 s2 a2 L1 L2 :
+    get h1 s = enode ->
+    Frag h1 (S s) s1 a1 L1 ->
+    (forall i, i < length h1 -> get h2 i = get h1 i) ->
+    Frag h2 (length h1) s2 a2 L2 ->
+    forall hf,
+      hf = set_eps (set_eps (set_eps (h2 ++ [enode]) s [s1; s2]) a1 [length h2]) a2 [length h2] ->
+      (forall i, i < s -> get hf i = get h2 i) /\
+      Frag hf s s (length h2) (fun w => L1 w \/ L2 w).
+  Proof.
+    intros Gs F1 Hfr F2 hf Ehf.
+    pose proof F1 as [Hs1 Ha1 Hne1 Hacc1 Hcl1 Hlang1].
+    pose proof F2 as [Hs2 Ha2 Hne2 Hacc2 Hcl2 Hlang2].
+    assert (Hlen : length hf = S (length h2)).
+    { subst hf. rewrite !length_set_eps, app_length. cbn [length]. lia. }
+    assert (Gother : forall i, i <> s -> i <> a1 -> i <> a2 -> get hf i = get h2 i).
+    { intros i H1 H2 H3. subst hf. rewrite !get_set_eps_other by assumption. apply get_app_empty. }
+    assert (Ghs : get hf s = mkNode [] [s1; s2]).
+    { subst hf. rewrite get_set_eps_other by lia. rewrite get_set_eps_other by lia.
+      rewrite get_set_eps_same by (rewrite app_length; cbn [length]; lia).
+      rewrite get_app_empty. rewrite Hfr by lia. rewrite Gs. reflexivity. }
+    assert (Gha1 : get hf a1 = mkNode [] [(length h2)]).
+    { subst hf. rewrite get_set_eps_other by lia.
+      rewrite get_set_eps_same by (rewrite length_set_eps, app_length; cbn [length]; lia).
+      rewrite get_set_eps_other by lia. rewrite get_app_empty. rewrite Hfr by lia.
+      rewrite Hacc1. reflexivity. }
+    assert (Gha2 : get hf a2 = mkNode [] [(length h2)]).
+    { subst hf.
+      rewrite get_set_eps_same by (rewrite !length_set_eps, app_length; cbn [length]; lia).
+      rewrite get_set_eps_other by lia. rewrite get_set_eps_other by lia.
+      rewrite get_app_empty. rewrite Hacc2. reflexivity. }
+    assert (Gha : get hf (length h2) = enode).
+    { rewrite Gother by lia. apply get_oob; lia. }
+    assert (Hag1 : forall i, S s <= i < length h1 -> i <> a1 -> get hf i = get h1 i).
+    { intros i Hi Hne. rewrite Gother by lia. apply Hfr; lia. }
+    assert (Hag2 : forall i, length h1 <= i < length h2 -> i <> a2 -> get hf i = get h2 i).
+    { intros i Hi Hne. apply Gother; lia. }
+    split.
+    { intros i Hi. apply Gother; lia. }
+    constructor.
+    - rewrite Hlen; lia.
+    - rewrite Hlen; lia.
+    - lia.
+    - exact Gha.
+    - intros u t Hu He. rewrite Hlen in Hu. rewrite Hlen.
+      destruct (Nat.eq_dec u s) as [->|Hus].
+      { apply (edge_eps_only _ _ _ _ Ghs) in He. destruct He as [<-|[<-|[]]]; lia. }
+      destruct (Nat.eq_dec u a1) as [->|Hu1].
+      { apply (edge_eps_only _ _ _ _ Gha1) in He. destruct He as [<-|[]]; lia. }
+      destruct (Nat.eq_dec u a2) as [->|Hu2].
+      { apply (edge_eps_only _ _ _ _ Gha2) in He. destruct He as [<-|[]]; lia. }
+      destruct (Nat.eq_dec u (length h2)) as [->|Hua].
+      { exfalso. eapply edge_empty; eassumption. }
+      destruct (Nat.lt_ge_cases u (length h1)) as [Hlt|Hge].
+      + assert (He1 : edge h1 u t).
+        { eapply edge_eq; [|exact He]. symmetry. apply Hag1; lia. }
+        assert (Ht : S s <= t < length h1) by (eapply Hcl1; [|exact He1]; lia). lia.
+      + assert (He2 : edge h2 u t).
+        { eapply edge_eq; [|exact He]. symmetry. apply Hag2; lia. }
+        assert (Ht : length h1 <= t < length h2) by (eapply Hcl2; [|exact He2]; lia). lia.
+    - intros w. split.
+      + intros [n Hp].
+        destruct (pathn_inv _ _ _ _ _ Hp) as [(_ & _ & Hx)|(n' & l & m & w' & -> & -> & Hst & Hp')];
+          [lia|].
+        destruct (estep_eps_only _ _ _ _ _ Ghs Hst) as [-> Hm]. cbn [olist app].
+        destruct Hm as [<-|[<-|[]]].
+        * left. apply (frag_exit h1 hf (S s) s1 a1 (length h2) L1 F1 Hag1 Gha1 Gha); [lia|].
+          exists n'; exact Hp'.
+        * right. apply (frag_exit h2 hf (length h1) s2 a2 (length h2) L2 F2 Hag2 Gha2 Gha); [lia|].
+          exists n'; exact Hp'.
+      + intros [H|H].
+        * eapply (path_eps hf s s1); [rewrite Ghs; left; reflexivity|].
+          apply (frag_exit h1 hf (S s) s1 a1 (length h2) L1 F1 Hag1 Gha1 Gha); [lia | exact H].
+        * eapply (path_eps hf s s2); [rewrite Ghs; right; left; reflexivity|].
+          apply (frag_exit h2 hf (length h1) s2 a2 (length h2) L2 F2 Hag2 Gha2 Gha); [lia | exact H].
+  Qed.
+
+  (* ---------- Opt / Star / Plus ---------- *)
+  Lemma wrap_frag (h1 : heap) s s1 a1 L (skip loop : bool) :
+    get h1 s = enode ->
+    Frag h1 (S s) s1 a1 L ->
+    forall hf,
+      hf = set_eps (set_eps (h1 ++ [enode]) s (if skip then [s1; length h1] else [s1]))
+             a1 (if loop then [s1; length h1] else [length h1]) ->
+      (forall i, i < s -> get hf i = get h1 i) /\
+      Frag hf s s (length h1) (wrapL skip loop L).
+  Proof.
+    intros Gs F1 hf Ehf.
+    pose proof F1 as [Hs1 Ha1 Hne1 Hacc1 Hcl1 Hlang1].
+    remember (if skip then [s1; (length h1)] else [s1]) as Es eqn:EEs.
+    remember (if loop then [s1; (length h1)] else [(length h1)]) as Eacc eqn:EEa.
+    assert (Hlen : length hf = S (length h1)).
+    { subst hf. rewrite !length_set_eps, app_length. cbn [length]. lia. }
+    assert (Gother : forall i, i <> s -> i <> a1 -> get hf i = get h1 i).
+    { intros i H1 H2. subst hf. rewrite !get_set_eps_other by assumption. apply get_app_empty. }
+    assert (Ghs : get hf s = mkNode [] Es).
+    { subst hf. rewrite get_set_eps_other by lia.
+      rewrite get_set_eps_same by (rewrite app_length; cbn [length]; lia).
+      rewrite get_app_empty. rewrite Gs. reflexivity. }
+    assert (Gha1 : get hf a1 = mkNode [] Eacc).
+    { subst hf.
+      rewrite get_set_eps_same by (rewrite length_set_eps, app_length; cbn [length]; lia).
+      rewrite get_set_eps_other by lia. rewrite get_app_empty. rewrite Hacc1. reflexivity. }
+    assert (Gha : get hf (length h1) = enode).
+    { rewrite Gother by lia. apply get_oob; lia. }
+    assert (Hag1 : forall i, S s <= i < length h1 -> i <> a1 -> get hf i = get h1 i).
+    { intros i Hi Hne. apply Gother; lia. }
+    assert (HEs : forall t, In t Es -> t = s1 \/ (skip = true /\ t = (length h1))).
+    { intros t Ht. subst Es. destruct skip; cbn [In] in Ht.
+      - destruct Ht as [<-|[<-|[]]]; auto.
+      - destruct Ht as [<-|[]]; auto. }
+    assert (HEa : forall t, In t Eacc -> t = (length h1) \/ (loop = true /\ t = s1)).
+    { intros t Ht. subst Eacc. destruct loop; cbn [In] in Ht.
+      - destruct Ht as [<-|[<-|[]]]; auto.
+      - destruct Ht as [<-|[]]; auto. }
+    assert (Hs1Es : In s1 Es) by (subst Es; destruct skip; left; reflexivity).
+    assert (HaEa : In (length h1) Eacc).
+    { subst Eacc; destruct loop; [right; left; reflexivity | left; reflexivity]. }
+    split.
+    { intros i Hi. apply Gother; lia. }
+    (* one traversal of the inner fragment *)
+    assert (Hone : forall w, L w -> path hf s1 w a1).
+    { intros w Hw. apply Hlang1 in Hw. destruct Hw as [n Hp]. exists n.
+      eapply (pathn_lift h1 hf (S s) (length h1) a1); eassumption. }
+    assert (Hexit : path hf a1 [] (length h1)).
+    { eapply path_eps; [rewrite Gha1; exact HaEa | apply path_nil]. }
+    constructor.
+    - rewrite Hlen; lia.
+    - rewrite Hlen; lia.
+    - lia.
+    - exact Gha.
+    - intros u t Hu He. rewrite Hlen in Hu. rewrite Hlen.
+      destruct (Nat.eq_dec u s) as [->|Hus].
+      { apply (edge_eps_only _ _ _ _ Ghs) in He. destruct (HEs _ He) as [->|[_ ->]]; lia. }
+      destruct (Nat.eq_dec u a1) as [->|Hu1].
+      { apply (edge_eps_only _ _ _ _ Gha1) in He. destruct (HEa _ He) as [->|[_ ->]]; lia. }
+      destruct (Nat.eq_dec u (length h1)) as [->|Hua].
+      { exfalso. eapply edge_empty; eassumption. }
+      assert (He1 : edge h1 u t).
+      { eapply edge_eq; [|exact He]. symmetry. apply Hag1; lia. }
+      assert (Ht : S s <= t < length h1) by (eapply Hcl1; [|exact He1]; lia). lia.
+    - intros w. unfold wrapL. split.
+      + (* soundness: every path spells (length h1) word of the language *)
+        assert (HA : forall n w, pathn hf n s1 w (length h1) -> if loop then iter L w else L w).
+        { intros n. induction n as [n IHn] using lt_wf_ind. intros w0 Hp.
+          destruct (pathn_split h1 hf (S s) (length h1) a1 Hcl1 Hag1 n s1 w0 (length h1) Hp Hs1 Hne1)
+            as (n1 & n2 & w1 & w2 & -> & Hn1 & -> & Hp1 & Hp2); [left; lia|].
+          assert (HL1 : L w1) by (apply Hlang1; exists n1; exact Hp1).
+          destruct (pathn_inv _ _ _ _ _ Hp2) as [(_ & _ & Hx)|(n' & l & m & w' & -> & -> & Hst & Hp')];
+            [lia|].
+          destruct (estep_eps_only _ _ _ _ _ Gha1 Hst) as [-> Hm]. cbn [olist app].
+          destruct (HEa _ Hm) as [->|[Hloop ->]].
+          - destruct (pathn_from_empty _ _ _ _ _ Gha Hp') as (_ & -> & _).
+            rewrite app_nil_r. destruct loop; [apply iter_one|]; exact HL1.
+          - rewrite Hloop. apply iter_cons; [exact HL1|].
+            assert (Hi := IHn n' ltac:(lia) w' Hp'). rewrite Hloop in Hi. exact Hi. }
+        intros [n Hp].
+        destruct (pathn_inv _ _ _ _ _ Hp) as [(_ & _ & Hx)|(n' & l & m & w' & -> & -> & Hst & Hp')];
+          [lia|].
+        destruct (estep_eps_only _ _ _ _ _ Ghs Hst) as [-> Hm]. cbn [olist app].
+        destruct (HEs _ Hm) as [->|[Hskip ->]].
+        * right. eapply HA; exact Hp'.
+        * left. destruct (pathn_from_empty _ _ _ _ _ Gha Hp') as (_ & -> & _). auto.
+      + intros [[Hskip ->]|HL].
+        * eapply (path_eps hf s (length h1)); [|apply path_nil]. rewrite Ghs. subst Es. rewrite Hskip.
+          right; left; reflexivity.
+        * eapply (path_eps hf s s1); [rewrite Ghs; exact Hs1Es|].
+          destruct loop.
+          -- induction HL as [w Hw | w1 w2 Hw Hi IH].
+             ++ rewrite <- (app_nil_r w). eapply path_app; [apply Hone; exact Hw | exact Hexit].
+             ++ eapply path_app; [apply Hone; exact Hw|].
+                eapply (path_eps hf a1 s1); [|exact IH]. rewrite Gha1. subst Eacc. left; reflexivity.
+          -- rewrite <- (app_nil_r w). eapply path_app; [apply Hone; exact HL | exact Hexit].
+  Qed.
+
+  (* ---------- Concat (copy of the right start node into the left accepting node) ---------- *)
+  Lemma concat_frag (h h1 : heap) lo s2 a2 s1 a1 Lpre Lo :
+    Frag h lo s2 a2 Lpre ->
+    (forall i, i < length h -> get h1 i = get h i) ->
+    Frag h1 (length h) s1 a1 Lo ->
+    (forall i, i < lo -> get (set_node h1 a2 (get h1 s1)) i = get h1 i) /\
+    Frag (set_node h1 a2 (get h1 s1)) lo s2 a1 (cat Lpre Lo).
+  Proof.
+    intros [Hs2 Ha2 Hne2 Hacc2 Hcl2 Hlang2] Hfr [Hs1 Ha1 Hne1 Hacc1 Hcl1 Hlang1].
+    remember (set_node h1 a2 (get h1 s1)) as hf eqn:Ehf.
+    assert (Hlen : length hf = length h1) by (subst hf; apply length_set_node).
+    assert (Ga2 : get hf a2 = get h1 s1).
+    { subst hf. apply get_set_node_same. lia. }
+    assert (Gother : forall i, i <> a2 -> get hf i = get h1 i).
+    { intros i Hi. subst hf. apply get_set_node_other. exact Hi. }
+    assert (Hagl : forall i, lo <= i < length h -> i <> a2 -> get hf i = get h i).
+    { intros i Hi Hne. rewrite Gother by exact Hne. apply Hfr; lia. }
+    assert (Hagr : forall i, length h <= i < length h1 -> get hf i = get h1 i).
+    { intros i Hi. apply Gother; lia. }
+    split.
+    { intros i Hi. apply Gother; lia. }
+    constructor.
+    - rewrite Hlen; lia.
+    - rewrite Hlen; lia.
+    - lia.
+    - rewrite Gother by lia. exact Hacc1.
+    - intros u t Hu He. rewrite Hlen in Hu. rewrite Hlen.
+      destruct (Nat.eq_dec u a2) as [->|Hu2].
+      { assert (He1 : edge h1 s1 t).
+        { unfold edge in *. rewrite Ga2 in He. exact He. }
+        assert (Ht : length h <= t < length h1) by (eapply Hcl1; [|exact He1]; lia). lia. }
+      destruct (Nat.lt_ge_cases u (length h)) as [Hlt|Hge].
+      + assert (He0 : edge h u t).
+        { eapply edge_eq; [|exact He]. symmetry. apply Hagl; [lia | exact Hu2]. }
+        assert (Ht : lo <= t < length h) by (eapply Hcl2; [|exact He0]; lia). lia.
+      + assert (He1 : edge h1 u t).
+        { eapply edge_eq; [|exact He]. symmetry. apply Hagr; lia. }
+        assert (Ht : length h <= t < length h1) by (eapply Hcl1; [|exact He1]; lia). lia.
+    - intros w. split.
+      + intros [n Hp].
+        destruct (pathn_split h hf lo (length h) a2 Hcl2 Hagl n s2 w a1 Hp Hs2 Hne2)
+          as (n1 & n2 & w1 & w2 & -> & Hn1 & -> & Hp1 & Hp2); [left; lia|].
+        exists w1, w2. split; [reflexivity|]. split; [apply Hlang2; exists n1; exact Hp1|].
+        apply Hlang1.
+        destruct (pathn_inv _ _ _ _ _ Hp2) as [(_ & _ & Hx)|(n' & l & m & w' & -> & -> & Hst & Hp')];
+          [lia|].
+        assert (Hst1 : estep h1 s1 l m).
+        { unfold estep in *. rewrite Ga2 in Hst. exact Hst. }
+        assert (Hm : length h <= m < length h1).
+        { eapply Hcl1; [exact Hs1 | eapply estep_edge; exact Hst1]. }
+        destruct (pathn_stay h1 hf (length h) (length h1) Hcl1 Hagr n' m w' a1 Hp' Hm) as [Hp1' _].
+        exists (S n'). eapply pn_cons; eassumption.
+      + intros (w1 & w2 & -> & H1 & H2).
+        apply Hlang2 in H1. apply Hlang1 in H2. eapply path_app.
+        * destruct H1 as [n Hp]. exists n.
+          eapply (pathn_lift h hf lo (length h) a2); eassumption.
+        * destruct H2 as [n Hp].
+          destruct (pathn_inv _ _ _ _ _ Hp) as [(_ & _ & Hx)|(n' & l & m & w' & -> & -> & Hst & Hp')];
+            [congruence|].
+          assert (Hm : length h <= m < length h1).
+          { eapply Hcl1; [exact Hs1 | eapply estep_edge; exact Hst]. }
+          exists (S n'). eapply pn_cons.
+          -- unfold estep in *. rewrite Ga2. exact Hst.
+          -- eapply (pathn_lift h1 hf (length h) (length h1) a1); try eassumption.
+             intros i Hi _. apply Hagr; exact Hi.
+  Qed.
+
+  (* ---------- the Thompson invariant, by nested induction on the pattern ---------- *)
+  Definition corr_op (o : op) : Prop :=
+    forall h : heap, wf_op o = true ->
+    exists h' s a, build_op o h = OK (h', (s, a)) /\
+      (forall i, i < length h -> get h' i = get h i) /\
+      Frag h' (length h) s a (lang_op o).
+  Definition corr_seq (e : list op) : Prop :=
+    forall (h : heap) lo s2 a2 Lpre, wf_seq e = true -> Frag h lo s2 a2 Lpre ->
+    exists h' a', build_seq e h (Some (s2, a2)) = OK (h', Some (s2, a')) /\
+      (forall i, i < lo -> get h' i = get h i) /\
+      Frag h' lo s2 a' (cat Lpre (lang_seq e)).
+  Definition corr_sub (e : list op) : Prop :=
+    forall h : heap, ne e = true -> wf_seq e = true ->
+    exists h' s a, sub e h = OK (h', (s, a)) /\
+      (forall i, i < length h -> get h' i = get h i) /\
+      Frag h' (length h) s a (lang_seq e).
+  Definition corr_seq2 (e : list op) : Prop := corr_seq e /\ corr_sub e.
+
+  Lemma length_app_empty (h : heap) : length (h ++ [enode]) = S (length h).
+  Proof. rewrite app_length. cbn [length]. lia. Qed.
+
+  Lemma corr_wrap e (skip loop : bool) : corr_seq2 e ->
+    forall h : heap, ne e = true -> wf_seq e = true ->
+    exists h1 s1 a1, sub e (h ++ [enode]) = OK (h1, (s1, a1)) /\
+      let hf := set_eps (set_eps (h1 ++ [enode]) (length h)
+                           (if skip then [s1; length h1] else [s1]))
+                  a1 (if loop then [s1; length h1] else [length h1]) in
+      (forall i, i < length h -> get hf i = get h i) /\
+      Frag hf (length h) (length h) (length h1) (wrapL skip loop (lang_seq e)).
+  Proof.
+    intros [_ Hsub] h Hn Hw.
+    destruct (Hsub (h ++ [enode]) Hn Hw) as (h1 & s1 & a1 & E & Hfr & HF).
+    rewrite length_app_empty in Hfr, HF.
+    exists h1, s1, a1. split; [exact E|].
+    assert (Gs : get h1 (length h) = enode).
+    { rewrite Hfr by lia. rewrite get_app_empty. apply get_oob. lia. }
+    destruct (wrap_frag h1 (length h) s1 a1 _ skip loop Gs HF _ eq_refl) as [Hfr2 HF2].
+    cbv zeta. split; [|exact HF2].
+    intros i Hi. rewrite Hfr2 by exact Hi. rewrite Hfr by lia. apply get_app_empty.
+  Qed.
+
+  Lemma cat_nil_r (L : list I -> Prop) w : L w <-> cat L (lang_seq []) w.
+  Proof.
+    split.
+    - intros H. exists w, []. split; [symmetry; apply app_nil_r|]. split; [exact H | constructor].
+    - intros (w1 & w2 & -> & H1 & H2). apply lang_seq_nil in H2. subst w2.
+      rewrite app_nil_r. exact H1.
+  Qed.
+
+  Lemma cat_assoc_cons (L : list I -> Prop) o e w :
+    cat (cat L (lang_op o)) (lang_seq e) w <-> cat L (lang_seq (o :: e)) w.
+  Proof.
+    split.
+    - intros (w12 & w3 & -> & (w1 & w2 & -> & H1 & H2) & H3).
+      exists w1, (w2 ++ w3). split; [symmetry; apply app_assoc|]. split; [exact H1|].
+      constructor; assumption.
+    - intros (w1 & w23 & -> & H1 & H23). apply lang_seq_cons in H23.
+      destruct H23 as (w2 & w3 & -> & H2 & H3).
+      exists (w1 ++ w2), w3. split; [apply app_assoc|]. split; [|exact H3].
+      exists w1, w2. auto.
+  Qed.
+
+  Lemma build_correct_aux : (forall o, corr_op o) /\ (forall e, corr_seq2 e).
+  Proof.
+    assert (Hatom : forall p, corr_op (Atom p)).
+    { intros p h _. rewrite build_op_atom.
+      destruct (atom_frag h p _ eq_refl) as [Hfr HF].
+      eexists _, _, _. split; [reflexivity|]. split; assumption. }
+    assert (Hunion : forall l r, corr_seq2 l -> corr_seq2 r -> corr_op (Union l r)).
+    { intros l r [_ Hl] [_ Hr] h Hwf. rewrite wf_op_union in Hwf.
+      apply andb_prop in Hwf. destruct Hwf as [Hwf Hwr].
+      apply andb_prop in Hwf. destruct Hwf as [Hwf Hnr].
+      apply andb_prop in Hwf. destruct Hwf as [Hnl Hwl].
+      destruct (Hl (h ++ [enode]) Hnl Hwl) as (h1 & s1 & a1 & E1 & Hfr1 & HF1).
+      rewrite length_app_empty in Hfr1, HF1.
+      destruct (Hr h1 Hnr Hwr) as (h2 & s2 & a2 & E2 & Hfr2 & HF2).
+      rewrite build_op_union, E1; cbv beta match. rewrite E2; cbv beta match.
+      assert (Gs : get h1 (length h) = enode).
+      { rewrite Hfr1 by lia. rewrite get_app_empty. apply get_oob. lia. }
+      destruct (union_frag h1 h2 (length h) s1 a1 s2 a2 _ _ Gs HF1 Hfr2 HF2 _ eq_refl) as [Hfr3 HF3].
+      pose proof (fr_s _ _ _ _ _ HF1) as Hs1.
+      eexists _, _, _. split; [reflexivity|]. split.
+      - intros i Hi. rewrite Hfr3 by exact Hi. rewrite Hfr2 by lia. rewrite Hfr1 by lia.
+        apply get_app_empty.
+      - eapply Frag_ext; [|exact HF3]. intros w; symmetry; apply lang_union. }
+    assert (Hopt : forall e, corr_seq2 e -> corr_op (Opt e)).
+    { intros e He h Hwf. rewrite wf_op_opt in Hwf.
+      apply andb_prop in Hwf. destruct Hwf as [Hn Hw].
+      destruct (corr_wrap e true false He h Hn Hw) as (h1 & s1 & a1 & E & Hfr & HF).
+      rewrite build_op_opt, E; cbv beta match.
+      eexists _, _, _. split; [reflexivity|]. split; [exact Hfr|].
+      eapply Frag_ext; [|exact HF]. intros w; symmetry; apply lang_opt. }
+    assert (Hstar : forall e, corr_seq2 e -> corr_op (Star e)).
+    { intros e He h Hwf. rewrite wf_op_star in Hwf.
+      apply andb_prop in Hwf. destruct Hwf as [Hn Hw].
+      destruct (corr_wrap e true true He h Hn Hw) as (h1 & s1 & a1 & E & Hfr & HF).
+      rewrite build_op_star, E; cbv beta match.
+      eexists _, _, _. split; [reflexivity|]. split; [exact Hfr|].
+      eapply Frag_ext; [|exact HF]. intros w; symmetry; apply lang_star. }
+    assert (Hplus : forall e, corr_seq2 e -> corr_op (Plus e)).
+    { intros e He h Hwf. rewrite wf_op_plus in Hwf.
+      apply andb_prop in Hwf. destruct Hwf as [Hn Hw].
+      destruct (corr_wrap e false true He h Hn Hw) as (h1 & s1 & a1 & E & Hfr & HF).
+      rewrite build_op_plus, E; cbv beta match.
+      eexists _, _, _. split; [reflexivity|]. split; [exact Hfr|].
+      eapply Frag_ext; [|exact HF]. intros w; symmetry; apply lang_plus. }
+    assert (Hnil : corr_seq2 []).
+    { split; [|intros h Hn; discriminate].
+      intros h lo s2 a2 Lpre _ HF. cbn [build_seq]. exists h, a2.
+      split; [reflexivity|]. split; [reflexivity|].
+      eapply Frag_ext; [|exact HF]. intros w; apply cat_nil_r. }
+    assert (Hcons : forall o e, corr_op o -> corr_seq2 e -> corr_seq2 (o :: e)).
+    { intros o e Ho [He _]. split.
+      - intros h lo s2 a2 Lpre Hwf HF. rewrite wf_seq_cons in Hwf.
+        apply andb_prop in Hwf. destruct Hwf as [Hwo Hwe].
+        destruct (Ho h Hwo) as (h1 & s1 & a1 & E1 & Hfr1 & HF1).
+        rewrite build_seq_cons, E1; cbv beta match.
+        destruct (concat_frag h h1 lo s2 a2 s1 a1 Lpre _ HF Hfr1 HF1) as [Hfr2 HF2].
+        destruct (He _ lo s2 a1 _ Hwe HF2) as (h' & a' & E' & Hfr' & HF').
+        pose proof (fr_s _ _ _ _ _ HF) as Hs2.
+        exists h', a'. split; [exact E'|]. split.
+        + intros i Hi. rewrite Hfr' by exact Hi. rewrite Hfr2 by exact Hi. apply Hfr1. lia.
+        + eapply Frag_ext; [|exact HF']. intros w; apply cat_assoc_cons.
+      - intros h _ Hwf. rewrite wf_seq_cons in Hwf.
+        apply andb_prop in Hwf. destruct Hwf as [Hwo Hwe].
+        destruct (Ho h Hwo) as (h1 & s1 & a1 & E1 & Hfr1 & HF1).
+        unfold sub. rewrite build_seq_cons, E1; cbv beta match.
+        destruct (He h1 (length h) s1 a1 _ Hwe HF1) as (h' & a' & E' & Hfr' & HF').
+        rewrite E'; cbv beta match.
+        exists h', s1, a'. split; [reflexivity|]. split.
+        + intros i Hi. rewrite Hfr' by exact Hi. apply Hfr1; exact Hi.
+        + eapply Frag_ext; [|exact HF']. intros w; symmetry; apply lang_seq_cons. }
+    split.
+    - exact (op_ind' corr_op corr_seq2 Hatom Hunion Hopt Hstar Hplus Hnil Hcons).
+    - exact (seq_ind' corr_op corr_seq2 Hatom Hunion Hopt Hstar Hplus Hnil Hcons).
+  Qed.
+
+  Theorem build_correct : forall e : expr P, wf e = true ->
+    exists h s a, expression_to_nfa e = OK (h, (s, a)) /\ Frag h 0 s a (lang accepts e).
+  Proof.
+    intros e Hwf. destruct (wf_ne_wf_seq e Hwf) as [Hn Hw].
+    destruct build_correct_aux as [_ Hseq]. destruct (Hseq e) as [_ Hsub].
+    destruct (Hsub [] Hn Hw) as (h & s & a & E & _ & HF).
+    exists h, s, a. split; [rewrite expression_to_nfa_sub; exact E | exact HF].
+  Qed.
+
+  (* ---------- predicates stored in the heap come from the pattern ---------- *)
+  Definition hpreds (h : heap) (Q : P -> Prop) : Prop :=
+    forall u p t, In (p, t) (ntrans (get h u)) -> Q p.
+
+  Lemma upd_oob {A} : forall (l : list A) a x, length l <= a -> upd a x l = l.
+  Proof.
+    induction l as [|y l IH]; intros [|a] x Hle; cbn [upd length] in *; try reflexivity; try lia.
+    rewrite IH by lia. reflexivity.
+  Qed.
+
+  Lemma get_set_node_cases (h : heap) a n u :
+    get (set_node h a n) u = n \/ get (set_node h a n) u = get h u.
+  Proof.
+    destruct (Nat.eq_dec u a) as [->|Hne]; [|right; apply get_set_node_other; exact Hne].
+    destruct (Nat.lt_ge_cases a (length h)) as [Hlt|Hge].
+    - left; apply get_set_node_same; exact Hlt.
+    - right. unfold set_node. rewrite upd_oob by exact Hge. reflexivity.
+  Qed.
+
+  Lemma hpreds_set_node (h : heap) a n Q :
+    hpreds h Q -> (forall p t, In (p, t) (ntrans n) -> Q p) -> hpreds (set_node h a n) Q.
+  Proof.
+    intros Hh Hn u p t Hin. destruct (get_set_node_cases h a n u) as [E|E]; rewrite E in Hin.
+    - eapply Hn; exact Hin.
+    - eapply Hh; exact Hin.
+  Qed.
+
+  Lemma hpreds_set_eps (h : heap) a l Q : hpreds h Q -> hpreds (set_eps h a l) Q.
+  Proof.
+    intros Hh. unfold set_eps. apply hpreds_set_node; [exact Hh|].
+    cbn [ntrans]. intros p t Hin. eapply Hh; exact Hin.
+  Qed.
+
+  Lemma hpreds_app_empty (h : heap) Q : hpreds h Q -> hpreds (h ++ [enode]) Q.
+  Proof. intros Hh u p t Hin. rewrite get_app_empty in Hin. eapply Hh; exact Hin. Qed.
+
+  Lemma hpreds_atom (h : heap) p k Q :
+    hpreds h Q -> Q p -> hpreds (h ++ [mkNode [(p, k)] []; enode]) Q.
+  Proof.
+    intros Hh Hp u q t Hin. destruct (Nat.lt_ge_cases u (length h)) as [Hlt|Hge].
+    - rewrite get_app_l in Hin by exact Hlt. eapply Hh; exact Hin.
+    - rewrite get_app_r in Hin by exact Hge.
+      destruct (u - length h) as [|[|[|j]]]; cbn in Hin; try contradiction.
+      destruct Hin as [Hin|[]]. inversion Hin; subst. exact Hp.
+  Qed.
+
+  Definition hp_op (o : op) : Prop :=
+    forall (h h' : heap) f Q, build_op o h = OK (h', f) -> hpreds h Q ->
+      (forall p, In p (preds_op o) -> Q p) -> hpreds h' Q.
+  Definition hp_seq (e : list op) : Prop :=
+    forall (h h' : heap) cur cur' Q, build_seq e h cur = OK (h', cur') -> hpreds h Q ->
+      (forall p, In p (preds_seq e) -> Q p) -> hpreds h' Q.
+
+  Lemma hp_sub e : hp_seq e -> forall (h h' : heap) f Q, sub e h = OK (h', f) -> hpreds h Q ->
+      (forall p, In p (preds_seq e) -> Q p) -> hpreds h' Q.
+  Proof.
+    intros He h h' f Q E Hh HQ. unfold sub in E.
+    destruct (build_seq e h None) as [[h'' [f'|]]|k] eqn:Eb; try discriminate.
+    inversion E; subst. eapply He; eassumption.
+  Qed.
+
+  Lemma hp_wrap e (h h' : heap) f Q s1' l1 l2 :
+    hp_seq e ->
+    match sub e (h ++ [enode]) with
+    | Err k => Err k
+    | OK (h1, (s1, a1)) =>
+        OK (set_eps (set_eps (h1 ++ [enode]) s1' (l1 h1 s1)) a1 (l2 h1 s1), ((length h, length h1) : frag))
+    end = OK (h', f) ->
+    hpreds h Q -> (forall p, In p (preds_seq e) -> Q p) -> hpreds h' Q.
+  Proof.
+    intros He E Hh HQ.
+    destruct (sub e (h ++ [enode])) as [[h1 [s1 a1]]|k] eqn:E1; [|discriminate].
+    inversion E; subst. apply hpreds_set_eps, hpreds_set_eps, hpreds_app_empty.
+    eapply (hp_sub e He); [exact E1 | apply hpreds_app_empty; exact Hh | exact HQ].
+  Qed.
+
+  Lemma hpreds_build_aux : (forall o, hp_op o) /\ (forall e, hp_seq e).
+  Proof.
+    assert (Hatom : forall p, hp_op (Atom p)).
+    { intros p h h' f Q E Hh HQ. rewrite build_op_atom in E. inversion E; subst.
+      apply hpreds_atom; [exact Hh|]. apply HQ. left; reflexivity. }
+    assert (Hunion : forall l r, hp_seq l -> hp_seq r -> hp_op (Union l r)).
+    { intros l r Hl Hr h h' f Q E Hh HQ. rewrite build_op_union in E.
+      rewrite preds_op_union in HQ.
+      destruct (sub l (h ++ [enode])) as [[h1 [s1 a1]]|k] eqn:E1; [|discriminate].
+      destruct (sub r h1) as [[h2 [s2 a2]]|k] eqn:E2; [|discriminate].
+      inversion E; subst.
+      apply hpreds_set_eps, hpreds_set_eps, hpreds_set_eps, hpreds_app_empty.
+      eapply (hp_sub r Hr); [exact E2 | | intros p Hp; apply HQ; apply in_or_app; right; exact Hp].
+      eapply (hp_sub l Hl); [exact E1 | apply hpreds_app_empty; exact Hh |].
+      intros p Hp; apply HQ; apply in_or_app; left; exact Hp. }
+    assert (Hopt : forall e, hp_seq e -> hp_op (Opt e)).
+    { intros e He h h' f Q E Hh HQ. rewrite build_op_opt in E. rewrite preds_op_opt in HQ.
+      eapply (hp_wrap e h h' f Q (length h) (fun h1 s1 => [s1; length h1]) (fun h1 _ => [length h1]));
+        eassumption. }
+    assert (Hstar : forall e, hp_seq e -> hp_op (Star e)).
+    { intros e He h h' f Q E Hh HQ. rewrite build_op_star in E. rewrite preds_op_star in HQ.
+      eapply (hp_wrap e h h' f Q (length h) (fun h1 s1 => [s1; length h1]) (fun h1 s1 => [s1; length h1]));
+        eassumption. }
+    assert (Hplus : forall e, hp_seq e -> hp_op (Plus e)).
+    { intros e He h h' f Q E Hh HQ. rewrite build_op_plus in E. rewrite preds_op_plus in HQ.
+      eapply (hp_wrap e h h' f Q (length h) (fun h1 s1 => [s1]) (fun h1 s1 => [s1; length h1]));
+        eassumption. }
+    assert (Hnil : hp_seq []).
+    { intros h h' cur cur' Q E Hh _. cbn [build_seq] in E. inversion E; subst. exact Hh. }
+    assert (Hcons : forall o e, hp_op o -> hp_seq e -> hp_seq (o :: e)).
+    { intros o e Ho He h h' cur cur' Q E Hh HQ. rewrite build_seq_cons in E.
+      cbn [preds_seq] in HQ.
+      destruct (build_op o h) as [[h1 [s1 a1]]|k] eqn:E1; [|discriminate].
+      assert (H1 : hpreds h1 Q).
+      { eapply Ho; [exact E1 | exact Hh |]. intros p Hp; apply HQ; apply in_or_app; left; exact Hp. }
+      assert (HQe : forall p, In p (preds_seq e) -> Q p).
+      { intros p Hp; apply HQ; apply in_or_app; right; exact Hp. }
+      destruct cur as [[s2 a2]|].
+      - eapply He; [exact E | | exact HQe]. apply hpreds_set_node; [exact H1|].
+        intros p t Hin. eapply H1; exact Hin.
+      - eapply He; [exact E | exact H1 | exact HQe]. }
+    split.
+    - exact (op_ind' hp_op hp_seq Hatom Hunion Hopt Hstar Hplus Hnil Hcons).
+    - exact (seq_ind' hp_op hp_seq Hatom Hunion Hopt Hstar Hplus Hnil Hcons).
+  Qed.
+
+  Theorem build_preds : forall (e : expr P) h f, expression_to_nfa e = OK (h, f) ->
+    forall u p t, In (p, t) (ntrans (get h u)) -> In p (preds_seq e).
+  Proof.
+    intros e h f E. rewrite expression_to_nfa_sub in E.
+    destruct hpreds_build_aux as [_ Hseq].
+    apply (hp_sub e (Hseq e) [] h f (fun p => In p (preds_seq e)) E).
+    - intros u p t Hin. unfold get in Hin. destruct u; cbn in Hin; contradiction.
+    - auto.
+  Qed.
+
+  (* ---------- the NFA simulation computes the path-reachable states ---------- *)
+  Lemma pathn_nil_reach (h : heap) n s w t : pathn h n s w t -> w = [] -> eps_reach h s t.
+  Proof.
+    intros Hp; induction Hp as [s | n s l m w t Hst Hp IH]; intros E.
+    - apply er_refl.
+    - destruct l as [x|]; cbn [olist app] in E; [discriminate|].
+      eapply er_step; [exact Hst | apply IH; exact E].
+  Qed.
+
+  Lemma reach_path (h : heap) s t : eps_reach h s t -> path h s [] t.
+  Proof.
+    intros Hr; induction Hr as [s|s m t He Hr IH]; [apply path_nil|].
+    eapply path_eps; eassumption.
+  Qed.
+
+  Lemma path_first (h : heap) n u w t : pathn h n u w t -> forall x v, w = x :: v ->
+    exists u' p m, eps_reach h u u' /\ In (p, m) (ntrans (get h u')) /\ accepts p x = true /\
+                   path h m v t.
+  Proof.
+    intros Hp; induction Hp as [s | n s l m w t Hst Hp IH]; intros x v E; [discriminate|].
+    destruct l as [y|]; cbn [olist app] in E.
+    - inversion E; subst y w. destruct Hst as (p & Hin & Hacc).
+      exists s, p, m. split; [apply er_refl|]. split; [exact Hin|]. split; [exact Hacc|].
+      exists n; exact Hp.
+    - destruct (IH x v E) as (u' & p & m' & Hr & Hin & Hacc & Hp').
+      exists u', p, m'. split; [eapply er_step; eassumption|]. auto.
+  Qed.
+
+  Lemma nfa_step_In (h : heap) A x t :
+    In t (nfa_step accepts h A x) <->
+    exists u p, In u A /\ In (p, t) (ntrans (get h u)) /\ accepts p x = true.
+  Proof.
+    unfold nfa_step. rewrite in_flat_map. split.
+    - intros (u & Hu & Ht). apply in_map_iff in Ht. destruct Ht as ([p t'] & Heq & Hf).
+      cbn [snd] in Heq; subst t'. apply filter_In in Hf. destruct Hf as [Hin Hacc].
+      exists u, p. auto.
+    - intros (u & p & Hu & Hin & Hacc). exists u. split; [exact Hu|].
+      apply in_map_iff. exists (p, t). split; [reflexivity|]. apply filter_In. auto.
+  Qed.
+
+  Lemma step_sem (h : heap) A x T' :
+    eclosed h A -> closure h (nfa_step accepts h A x) = OK T' ->
+    eclosed h T' /\
+    forall v t, (exists u, In u A /\ path h u (x :: v) t) <-> (exists u', In u' T' /\ path h u' v t).
+  Proof.
+    intros Hc ET. split; [eapply closure_eclosed; exact ET|].
+    destruct (closure_spec _ _ _ ET) as [Hspec _].
+    intros v t; split.
+    - intros (u & Hu & [n Hp]).
+      destruct (path_first h n u _ t Hp x v eq_refl) as (u' & p & m & Hr & Hin & Hacc & Hp').
+      exists m. split; [|exact Hp']. apply Hspec. exists m. split; [|apply er_refl].
+      apply nfa_step_In. exists u', p. split; [|auto]. eapply eclosed_reach; eassumption.
+    - intros (u' & Hu' & Hp'). apply Hspec in Hu'. destruct Hu' as (m & Hm & Hr).
+      apply nfa_step_In in Hm. destruct Hm as (u & p & Hu & Hin & Hacc).
+      exists u. split; [exact Hu|]. eapply path_sym; [exact Hin | exact Hacc|].
+      change v with ([] ++ v). eapply path_app; [apply reach_path; exact Hr | exact Hp'].
+  Qed.
+
+  Lemma path_nil_closed (h : heap) A u t : eclosed h A -> In u A -> path h u [] t -> In t A.
+  Proof.
+    intros Hc Hu [n Hp]. eapply eclosed_reach; [exact Hc | exact Hu|].
+    eapply pathn_nil_reach; [exact Hp | reflexivity].
+  Qed.
+
+  Lemma nfa_run_spec (h : heap) : forall w A, eclosed h A ->
+    exists r, nfa_run accepts h A w = OK r /\
+      forall t, (match r with Some fin => In t fin | None => False end) <->
+                exists u, In u A /\ path h u w t.
+  Proof.
+    induction w as [|x w IH]; intros A Hc.
+    - exists (Some A). split; [reflexivity|]. intros t; split.
+      + intros Ht. exists t. split; [exact Ht | apply path_nil].
+      + intros (u & Hu & Hp). eapply path_nil_closed; eassumption.
+    - cbn [nfa_run]. destruct (closure_total h (nfa_step accepts h A x)) as [T' ET]. rewrite ET.
+      destruct (step_sem h A x T' Hc ET) as [Hc' Hsem]. destruct T' as [|t0 T'].
+      + exists None. split; [reflexivity|]. intros t; split; [intros []|].
+        intros Hex. apply Hsem in Hex. destruct Hex as (u' & [] & _).
+      + destruct (IH (t0 :: T') Hc') as (r & Er & Hr). exists r. split; [exact Er|].
+        intros t. rewrite Hr. symmetry. apply Hsem.
+  Qed.
+
+  Lemma start_sem (h : heap) s a st (L : list I -> Prop) :
+    Frag h 0 s a L -> closure h [s] = OK st ->
+    eclosed h st /\ forall w, (exists u, In u st /\ path h u w a) <-> L w.
+  Proof.
+    intros HF Est. split; [eapply closure_eclosed; exact Est|].
+    destruct (closure_spec _ _ _ Est) as [Hspec _].
+    intros w. rewrite <- (fr_lang _ _ _ _ _ HF). split.
+    - intros (u & Hu & Hp). apply Hspec in Hu. destruct Hu as (s' & [<-|[]] & Hr).
+      change w with ([] ++ w). eapply path_app; [apply reach_path; exact Hr | exact Hp].
+    - intros Hp. exists s. split; [|exact Hp]. apply Hspec. exists s.
+      split; [left; reflexivity | apply er_refl].
+  Qed.
+
+  Theorem C13_nfa_match : forall (e : expr P) w, wf e = true ->
+    (exists b, nfa_match accepts e w = OK b) /\
+    (nfa_match accepts e w = OK true <-> lang accepts e w).
+  Proof.
+    intros e w Hwf. destruct (build_correct e Hwf) as (h & s & a & E & HF).
+    unfold nfa_match. rewrite E; cbv beta match.
+    destruct (closure_total h [s]) as [st Est]. rewrite Est.
+    destruct (start_sem h s a st _ HF Est) as [Hc Hsem].
+    destruct (nfa_run_spec h w st Hc) as (r & Er & Hr). rewrite Er.
+    destruct r as [fin|].
+    - split; [eexists; reflexivity|]. rewrite <- Hsem, <- Hr, <- mem_In.
+      split; [intros H; inversion H; reflexivity | intros ->; reflexivity].
+    - split; [eexists; reflexivity|]. split; [discriminate|].
+      intros HL. apply Hsem in HL. apply Hr in HL. destruct HL.
+  Qed.
 End NfaProofs.
